@@ -159,9 +159,33 @@ def rewrite(src):
 
 # ---------------------------------------------------------------- native stand-ins
 
-class _Addr:
-    def __init__(self, target):
-        self.target = target
+class Ch(int):
+    """a C character value: compares with a one-character string literal by code point (what the
+    C compiler does with a character constant) -- used when rewritten functions are *run*"""
+
+    @staticmethod
+    def _o(x):
+        return ord(x) if isinstance(x, str) else x
+
+    def __eq__(self, o):
+        return int(self) == Ch._o(o)
+
+    def __ne__(self, o):
+        return int(self) != Ch._o(o)
+
+    def __lt__(self, o):
+        return int(self) < Ch._o(o)
+
+    def __le__(self, o):
+        return int(self) <= Ch._o(o)
+
+    def __gt__(self, o):
+        return int(self) > Ch._o(o)
+
+    def __ge__(self, o):
+        return int(self) >= Ch._o(o)
+
+    __hash__ = int.__hash__
 
 
 def _namespace():
